@@ -1225,7 +1225,23 @@ std::ostream& expression_t::print(std::ostream& os, bool old) const
     case MIN:
     case MAX:
     case FRACTION:
-        embrace_strict(os, old, get(0), precedence);
+        switch (data->kind) {
+        case ASSIGN:
+        case ASS_PLUS:
+        case ASS_MINUS:
+        case ASS_DIV:
+        case ASS_MOD:
+        case ASS_MULT:
+        case ASS_AND:
+        case ASS_OR:
+        case ASS_XOR:
+        case ASS_LSHIFT:
+        case ASS_RSHIFT:
+            // right associative, and the grammar extends an unparenthesised inline-if over the assignment
+            embrace(os, old, get(0), get_precedence(INLINE_IF));
+            break;
+        default: embrace_strict(os, old, get(0), precedence);
+        }
         switch (data->kind) {
         case FRACTION: os << " : "; break;
         case PLUS: os << " + "; break;
@@ -1262,7 +1278,10 @@ std::ostream& expression_t::print(std::ostream& os, bool old) const
         case MAX: os << " >? "; break;
         default: assert(0);
         }
-        embrace(os, old, get(1), precedence);
+        if (precedence == get_precedence(ASSIGN))
+            embrace_strict(os, old, get(1), precedence);  // a = b = c is a = (b = c)
+        else
+            embrace(os, old, get(1), precedence);
         break;
 
     case IDENTIFIER: os << data->symbol.get_name(); break;
